@@ -41,9 +41,19 @@ def judge(ctx, res, stream):
                 # `other` was run on a SUBSET of the records: it must be contained in the full run
                 lost = other - base
                 if lost:
+                    # known class: with a cleavage exception in force the command follows, per graph
+                    # shape, the reading with or without the exception (open finding
+                    # exception-context-split-across-nodes).  A lost peptide that is a product ONLY
+                    # when the exception is ignored (in S_B, not in S_A of the full record set — the
+                    # haplotypes of the subset are among those of the full set) belongs to it.
+                    key = None
+                    if kw.get('cleavage_exception') and r.get('S_B') is not None \
+                            and all(p_ in r['S_B'] and p_ not in r['S_A'] for p_ in lost):
+                        key = cv_checks.KF_EXC
                     ctx.add_violation(
                         f'adding GVF records removed peptide(s) {sorted(lost)[:3]} (records added: '
-                        f'{v["added_ids"][:3]})', cv_checks.replay_of(r, kind='addvar', what=v['what']))
+                        f'{v["added_ids"][:3]})', cv_checks.replay_of(r, kind='addvar', what=v['what']),
+                        finding_key=key)
                 added = base - other
                 bad = []
                 for p in sorted(added):
